@@ -121,24 +121,59 @@ def sabs(x):
     return abs(x)
 
 
-def sfloat(x=0.0):
-    if isinstance(x, SNum):
-        return SNum(_real(x.t))
-    return builtins.float(x)
+class _TypeShimMeta(type):
+    """The shims for the NAMES `float` / `int` inside a module under test must stay usable wherever the code uses
+    the name as a type: isinstance(x, float), dtype=float (numpy reads the `dtype` attribute of a type object)."""
+
+    def __instancecheck__(cls, obj):
+        if isinstance(obj, cls._builtin):
+            return True
+        return isinstance(obj, SNum) and cls._accepts(obj)
+
+    def __subclasscheck__(cls, sub):
+        return issubclass(sub, cls._builtin)
+
+    def __repr__(cls):
+        return "<class '%s'>" % cls._builtin.__name__
 
 
-def sint(x=0, *a):
+class sfloat(metaclass=_TypeShimMeta):
+    """float(x) that lets proxies through."""
+    _builtin = builtins.float
+    dtype = np.dtype('float64')
+    __name__ = 'float'
+
+    @staticmethod
+    def _accepts(obj):
+        return not obj.is_int
+
+    def __new__(cls, x=0.0):
+        if isinstance(x, SNum):
+            return SNum(_real(x.t))
+        return builtins.float(x)
+
+
+class sint(metaclass=_TypeShimMeta):
     """int(x): truncation toward zero.  On a symbolic real: fresh integer k with
     x>=0 -> k <= x < k+1, x<0 -> k-1 < x <= k."""
-    if isinstance(x, SNum):
-        if x.is_int:
-            return x
-        c = cur()
-        k = c.fresh('trunc', 'int')
-        kr = z3.ToReal(k)
-        c.lemma(z3.If(x.t >= 0, z3.And(kr <= x.t, x.t < kr + 1), z3.And(kr - 1 < x.t, x.t <= kr)))
-        return SNum(k)
-    return builtins.int(x, *a)
+    _builtin = builtins.int
+    dtype = np.dtype('int64')
+    __name__ = 'int'
+
+    @staticmethod
+    def _accepts(obj):
+        return obj.is_int
+
+    def __new__(cls, x=0, *a):
+        if isinstance(x, SNum):
+            if x.is_int:
+                return x
+            c = cur()
+            k = c.fresh('trunc', 'int')
+            kr = z3.ToReal(k)
+            c.lemma(z3.If(x.t >= 0, z3.And(kr <= x.t, x.t < kr + 1), z3.And(kr - 1 < x.t, x.t <= kr)))
+            return SNum(k)
+        return builtins.int(x, *a)
 
 
 def ssum(seq, start=0):
@@ -487,7 +522,7 @@ def _big_int_power(b, k):
     (sign, unit interval, fixed points, monotone on b>=0 among the instances present)."""
     c = cur()
     if k < 0:
-        if bool(SBool(b.t == 0)):
+        if getattr(c, 'domain_checks', True) and bool(SBool(b.t == 0)):
             raise ZeroDivisionError('0.0 cannot be raised to a negative power')
         return 1.0 / _big_int_power(b, -k)
     f = _IPOW.get(k)
